@@ -33,7 +33,8 @@ def analyse(src: Source) -> List[Report]:
         "refreshed also when the active unit is unchanged. R11.4: + direction lands on the neighbour's cell_min, - direction "
         "on cell_max, same direction for neighbour and coordinate; the earliest crossing's boundary and direction are stored "
         "together and exactly that coordinate is written after a full time-slice; periodic image shifts use the component "
-        "they were computed from. R11.5: TagActivator updates all internal states before the create loop. Not decided: "
+        "they were computed from. R11.5: TagActivator updates all internal states before the create loop; in every reachable tagger-pool state of every "
+        "shipped .ini the cell-boundary tagger of each cell system is pending after every commit. Not decided: "
         "agreement of position_to_cell with the recorded cell on floats.")
     prog = Program(src)
     check_occupancy(prog, rep)
@@ -42,6 +43,12 @@ def analyse(src: Source) -> List[Report]:
     hp = HandlerProtocol(prog, prog.class_named("CellBoundaryEventHandler"), rep, ["R7.2", "R8.5", "R7.1"])
     hp.run()
     check_activator(prog, rep)
+    from ..config_graph import ConfigGraph
+    from ..inifront import load_all
+    cache = {}
+    for cfg in load_all(prog):
+        ConfigGraph(prog, cfg, cache).explore(rep, ("C11",))
+    rep.expect_min("R11.5-boundary-event-always-pending", 40)
     rep.expect_min("R11.1-placement-cap", 2)
     rep.expect_min("R11.2-reinsert-old-cell", 1)
     rep.expect_min("R11.4-landing-table", 1)
@@ -91,6 +98,9 @@ MUTANTS = [
 MUTANTS.append(Edit("update: non-empty surplus list deleted", OC,
                     "                if not self._surplus.get(self._active_cell, True):\n                    del self._surplus[self._active_cell]",
                     "                if self._surplus.get(self._active_cell):\n                    del self._surplus[self._active_cell]", "R11.1"))
+MUTANTS.append(Edit("surplus events trash the boundary event without re-creating it",
+                    "jellyfysh/config_files/2018_JCP_149_064113/coulomb_atoms/cell_bounded.ini",
+                    r"(\[CoulombSurplus\]\n(?:[^\[]*\n)*?create = [^\n]*?)cell_boundary,? ?", r"\1", "R11.5", regex=True))
 TWINS = [
     Edit("update: old cell saved in a local first", OC,
          r"(        if new_active_unit\.identifier != self\._active_unit_identifier:\n)",
